@@ -251,7 +251,12 @@ func TestVerifC10APIChild(t *testing.T) {
 	// never let a runaway allocation of the code under test take the machine down
 	lim := syscall.Rlimit{Cur: 4 << 30, Max: 4 << 30}
 	syscall.Setrlimit(syscall.RLIMIT_AS, &lim)
-	data := verifC10Files()[idx]
+	var data []byte
+	if hx := os.Getenv("VERIF_C10_FILE"); hx != "" {
+		data = zzverif.Unhex(hx) // replay of one recorded upload (`./check C10 --replay`): the file itself, not a corpus index
+	} else {
+		data = verifC10Files()[idx]
+	}
 	t.Setenv("OLLAMA_MODELS", t.TempDir())
 	var s Server
 	h, err := s.GenerateRoutes(nil)
@@ -349,6 +354,36 @@ func TestVerifC10APIChild(t *testing.T) {
 		resp.Body.Close()
 		fmt.Printf("VERIF alive=%d\n", resp.StatusCode)
 	}
+}
+
+// TestVerifC10APIReplay: one recorded API case (`api-<mode> <idx> <hex>`, `gguf-layers <maxSeek> <hex>`, `gguf-from <hex>`,
+// `gguf-show <hex>`) against the real handlers; the verdict goes to l2.txt like in the full run.
+func TestVerifC10APIReplay(t *testing.T) {
+	out := zzverif.NewOut()
+	defer out.Close()
+	b, err := os.ReadFile(os.Getenv("VERIF_REPLAY"))
+	if err != nil {
+		t.Fatal(err)
+	}
+	toks := strings.Fields(strings.TrimSpace(string(b)))
+	if len(toks) < 2 {
+		t.Fatal("bad replay line")
+	}
+	mode := map[string]string{"api-create": "create", "api-show": "show", "api-createfrom": "createfrom", "gguf-layers": "create", "gguf-from": "createfrom", "gguf-show": "show"}[toks[0]]
+	if mode == "" {
+		t.Fatalf("not an API case: %s", toks[0])
+	}
+	os.Setenv("VERIF_C10_FILE", toks[len(toks)-1])
+	res, layers := verifC10RunChild(0, mode)
+	fmt.Fprintf(os.Stderr, "c10-api replay %s: %s %s\n", mode, res, layers)
+	ok := strings.HasSuffix(res, " alive") && !strings.Contains(res, "=-1") && !strings.HasPrefix(res, "no-error") && !strings.HasPrefix(res, "panic-recovered")
+	if !ok {
+		out.L2("api-"+mode+"-"+strings.Fields(res)[0], strings.Join(toks, " "), res)
+	}
+	if strings.Contains(layers, " inexact=") {
+		out.L2("api-create-layer-not-one-model", strings.Join(toks, " "), layers)
+	}
+	out.Count("api_replay_cases")
 }
 
 func TestVerifC10API(t *testing.T) {
